@@ -1,4 +1,5 @@
 pub mod absmod;
+pub mod apistate;
 pub mod cases;
 pub mod concretise;
 pub mod gen;
